@@ -323,6 +323,26 @@ def history_worker(part, depth):
                         check_cell(part, fresh, tuple(float(x) for x in cells[i_bad]), "history:new-object-after-refused-%s" % which, case, frame_free=True)
                     except Exception as e:
                         part.fail("history:raise-after-refused", "a valid cell specification raised %r after a refused one (%s)" % (e, which), case)
+    # pairwise: provenance TOGETHER WITH re-specification - the object that is re-specified is itself a copy (copy.copy, copy.deepcopy,
+    # pickle round trip) of a cell built either way; afterwards it describes the cell specified last, and its source is untouched
+    import copy
+    import pickle
+
+    for cname, dup in (("copy", copy.copy), ("deepcopy", copy.deepcopy), ("pickle", lambda x: pickle.loads(pickle.dumps(x)))):
+        for src_route in ("angles", "vectors"):
+            for k in range(len(alphabet)):
+                part.ev()
+                part.tr(2)
+                p_src = cells[(alphabet[k][1] + 1) % 3]
+                src = UnitCell.from_lengths_and_angles(list(p_src[:3]), list(p_src[3:]), unit="degrees") if src_route == "angles" else UnitCell(lattice.cell_matrix(*p_src))
+                case = {"kind": "history", "hist": []}
+                try:
+                    uc = dup(src)
+                    params, free = apply(uc, alphabet[k])
+                    check_cell(part, uc, tuple(float(x) for x in params), "history:%s-of-a-%s" % (alphabet[k][0], cname), case, frame_free=True)
+                    check_cell(part, src, tuple(float(x) for x in p_src), "history:source-of-a-%s" % cname, case, frame_free=True)
+                except Exception as e:
+                    part.fail("history:raise-on-copy", "re-specifying a %s of a UnitCell raised %r" % (cname, e), case)
     seen = set()
     for L in range(1, depth + 1):
         for hist in itertools.product(range(len(alphabet)), repeat=L):
